@@ -15,6 +15,7 @@ NextSig == \/ (nextId <= MaxMsgs /\ Put("slc"))
            \/ \E v \in Vals, id \in DOMAIN msgs, mode \in {"good", "stale"} : Sign(v, id, mode)
            \/ \E v \in Vals, id \in DOMAIN msgs, x \in EstValues : Estimate(v, id, x)
            \/ \E v \in {1} : ReRegister(v)
+           \/ ((\A id \in DOMAIN msgs : msgs[id].asg < 1) /\ Reassign)
            \/ EndBlock
 View == <<msgs, nextId, keyver, refHeight, jailed, height, removedBy, applied>>
 =============================================================================
